@@ -31,6 +31,8 @@ func main() {
 			Rule: "one case = one key-group count n with up to 9 operator counts {1,2,3,7,n-1,n,n+1, random<=2n, random<=70000}. quick: n = 1..4096, then 45 special counts (65535, 65534, 32767..32769, primes, powers of two +-1), then 1000 seeded random n in 4097..65535; thorough: EVERY n in 1..65535 (exhaustive over the group-count axis) followed by the quick specials. Oracle: KeyGroupRanges() has one range per operator, starts at 0, each range starts where the previous ends, ends at n, sizes differ by at most one; for every key group g (all of them when n<=4096, else both ends of <=64 ranges + 512 random groups) a 4-byte key with reference hash = g (mod n) must give KeyGroup==g and RangeIndex== the index of the one range containing g. non-trivial = some operator count does not divide n; distinct by (n, operator counts)"},
 		&lib.Prop{ID: "C05", Part: "murmur", Level: level, NCases: lib1(400, 20000), Run: murmurCase, Assumptions: assume,
 			Rule: "case 0 replays the committed golden table (545 vectors: 25 published, 520 generated for lengths 0..64 x 4 fillings x 2 seeds) against util/murmur. Every other case: for every length 0..64 four byte strings (random, all bytes >=0x80, prefix-related M1 atoms, one random byte repeated) hashed under seeds {0, 1..7 (bloom probes), 0x9747b28c, 0xffffffff, random} by util/murmur and by the reference; then KeySpace.KeyGroup(key) == reference(key, seed 0) mod n for 3 group counts per key (random, 65535, small). distinct by the hash of the generated strings"},
+		&lib.Prop{ID: "C05", Part: "operator-range", Level: level, NCases: lib1(60, 3000), Run: operatorRangeCase, Assumptions: assume,
+			Rule: "a real operator.Operator is deployed 2..4 times (the same object, idle in between, restored from its last checkpoint) at seeded positions of assemblies of 2..6 operators with {2,7,16,256,1000,4096} key groups; the key-group range it reports with its next checkpoint must be KeySpace.KeyGroupRanges()[position] of the deployment in force; non-trivial = always; distinct by (groups, operators, positions)"},
 		&lib.Prop{ID: "C05", Part: "routing", Level: level, NCases: lib1(120, 4000), Run: routingCase, Assumptions: append([]string{
 			"no cluster: the router is a real sourcerunner.SourceRunner deployed against recording proto.Operator stubs (its routeEvent picks the batcher), the persisting side is a real KeyedStateStore + TimerStore over a real dkv.DB per operator, the ownership filter is OperatorPartition.OwnsKey",
 			"OperatorPartition has no exported constructor: its key-group range is set through reflection (field keyGroupRange); operator.go builds it from KeySpace.KeyGroupRanges()[ownIndex], which the monitor does too",
